@@ -544,11 +544,14 @@ func (t *Transaction) isValid() error {
 	return nil
 }
 
-// CheckLimits checks that the transaction fits the structural limits of its
-// binary format. Decoders apply these limits while reading, so this check is
-// needed for transactions that were constructed rather than decoded: the ones
-// that don't pass it can't be decoded by anyone.
+// CheckLimits checks that the transaction is well-formed and fits the
+// structural limits of its binary format. Decoders make these checks while
+// reading, so this method is needed for transactions that were constructed
+// rather than decoded: the ones that don't pass it can't be decoded by anyone.
 func (t *Transaction) CheckLimits() error {
+	if err := t.isValid(); err != nil {
+		return err
+	}
 	if len(t.Script) > MaxScriptLength {
 		return fmt.Errorf("script is too big: %d bytes", len(t.Script))
 	}
@@ -563,10 +566,26 @@ func (t *Transaction) CheckLimits() error {
 	}
 	for i := range t.Signers {
 		s := &t.Signers[i]
-		if len(s.AllowedContracts) > maxSubitems || len(s.AllowedGroups) > maxSubitems || len(s.Rules) > maxSubitems {
-			return fmt.Errorf("signer %d: too many allowed contracts, groups or rules", i)
+		if _, err := ScopesFromByte(byte(s.Scopes)); err != nil {
+			return fmt.Errorf("signer %d: %w", i, err)
+		}
+		// The lists are a part of the transaction only with the scope set.
+		if s.Scopes&CustomContracts != 0 && len(s.AllowedContracts) > maxSubitems {
+			return fmt.Errorf("signer %d: too many allowed contracts", i)
+		}
+		if s.Scopes&CustomGroups != 0 && len(s.AllowedGroups) > maxSubitems {
+			return fmt.Errorf("signer %d: too many allowed groups", i)
+		}
+		if s.Scopes&Rules == 0 {
+			continue
+		}
+		if len(s.Rules) > maxSubitems {
+			return fmt.Errorf("signer %d: too many rules", i)
 		}
 		for j := range s.Rules {
+			if s.Rules[j].Action != WitnessDeny && s.Rules[j].Action != WitnessAllow {
+				return fmt.Errorf("signer %d: rule %d: unknown action", i, j)
+			}
 			if !conditionFitsLimits(s.Rules[j].Condition, MaxConditionNesting) {
 				return fmt.Errorf("signer %d: rule %d: invalid condition nesting or size", i, j)
 			}
